@@ -159,4 +159,18 @@ PROPS = {
             {"name": "timeouts", "pkg": "c13", "run": "^TestC13Timeouts$", "shards": {"quick": 2, "thorough": 4}, "timeout": {"quick": 300, "thorough": 900}},
         ],
     },
+    "C09": {
+        "level": "exploration",
+        "level_text": "Options: every permutation of WithStore with every subset of up to 3 (quick: all 1-2-subsets and a seed-chosen fifth of the 3-subsets) / 4 (thorough, complete) of the other eleven bus options, plus WithStore applied after New and legacy hooks installed by setter: three publishes each, exactly one record per publish with the EventType name and the event's JSON, readable from inside a synchronous and an asynchronous handler of that publish, and the user's own hooks still run. Values: K generated values of eleven event shapes (nested structs with nil/empty/filled pointers, slices, maps, bytes, extreme ints and floats, unicode; pointer events; custom MarshalJSON; TypeNamer incl. value-dependent and pointer-receiver names; named string / map types): stored type = EventType(event), stored data = json.Marshal(event) as a JSON value, decoding yields the published value. Concurrency: rounds of 2-16 publishers on memory, paged memory, SQLite (file, memory) and durable-streams: exactly N records, id multiset exact, offsets strictly increasing in read order, every handler found its own record.",
+        "level_note": "Strictly increasing is evaluated with the documented lexicographic order, so SQLite's unpadded offsets surface here under the same signature as in C10 (recorded finding). Durable-streams per-event offsets are synthetic (C10 finding) and are not compared here.",
+        "technique": "runtime monitoring: store-content oracle from inside handlers and after publishes, over enumerated option permutations, generated values and concurrent publishers",
+        "design_ref": "DESIGN.md section 5 C09",
+        "rule": "options: enumerated permutations x installation variant; values: PRNG; concurrent: PRNG (store, publishers, events, GOMAXPROCS); distinct = the option permutation+variant / (shape, depth, size class, nil-empty-filled flags) / (store, publishers, events, GOMAXPROCS); non-trivial = a hook-setting option after WithStore or a late installation / value nesting depth >=2 / >=2 publishers",
+        "assumptions": [],
+        "parts": [
+            {"name": "options", "pkg": "c09", "run": "^TestC09Options$", "shards": {"quick": 4, "thorough": 16}, "timeout": {"quick": 300, "thorough": 3000}},
+            {"name": "values", "pkg": "c09", "run": "^TestC09Values$", "shards": {"quick": 2, "thorough": 8}, "timeout": {"quick": 300, "thorough": 1500}},
+            {"name": "concurrent", "pkg": "c09", "run": "^TestC09Concurrent$", "race": True, "shards": {"quick": 5, "thorough": 15}, "timeout": {"quick": 400, "thorough": 3000}},
+        ],
+    },
 }
